@@ -10,18 +10,19 @@ import kv
 
 ID = 'C07'
 COQ_MODELS = ['MRec', 'MTraj']
-COQ_HEADER = 'From KV Require Import Eqb AL.\nFrom KV.Model Require Import MRec MTraj.'
+COQ_HEADER = 'From KV Require Import Eqb AL Str.\nFrom KV.Model Require Import MRec MTraj.'
 CASE_TYPE = 'MTraj.case'
 CHECK_FN = 'MTraj.check_case'
-SHARD_SIZE = 40
+SHARD_SIZE = 70
 CASE_TIMEOUT = 120
 RULE = ('one evaluation = one case = a batch of runs; a run = a fresh container (Trajectories, or RecordsCamera/Lidar/'
         'Depth/Gnss/Wifi) driven by a sequence of operations {set pair, set timestamp (dict), delete pair, delete '
         'timestamp, contains timestamp/pair, get pair/timestamp, key_pairs, len, sorted timestamps, timestamp_length, '
         'intermediate_pose, ill-typed calls}, every answer (value or exception class) recorded. Streams: (A) all edit '
         'sequences over 2 timestamps x 2 devices up to the tier length (15 symbols incl. a cache-rebuilding query), each '
-        'followed by a full query battery, batched by common prefix; (B) the same over 3 timestamps x 2 devices with '
-        'pair edits only; (R) random runs of up to 200 operations over pools of 2..40 timestamps of 1..19 digits (also '
+        'followed by a query battery (full battery up to length 3 quick / 4 thorough, 5 probing queries at the last '
+        'length; thorough adds a 10% sample of length 5), batched by common prefix; the same for RecordsCamera; (B) the '
+        'same over 3 timestamps x 2 devices with pair edits only (16 symbols, length 3 quick / 4 thorough); (R) random runs of up to 200 operations over pools of 2..40 timestamps of 1..19 digits (also '
         'negative, also above sys.maxsize) and 1..4 devices, queries interleaved with edits; (M) ill-typed calls mixed '
         'into R. Non-trivial = the case has a run with an edit followed by a query; distinct = distinct batch content.')
 TRUSTED = ['quaternion.slerp / PoseTransform arithmetic inside compute_intermediate_pose: section variable `interp` '
@@ -118,18 +119,24 @@ def _battery(ts, kind, rot=0, full=True):
     return q
 
 
-def _exhaustive(alphabet, ts, max_len, kind, cases, tag, light_from=99):
+def _exhaustive(alphabet, ts, max_len, kind, cases, tag, light_from=99, extra=None):
     """All sequences up to max_len over the alphabet, batched by common prefix (one case = the
-    sequences  prefix + s  for every symbol s)."""
+    sequences  prefix + s  for every symbol s).  Lengths >= light_from get the short battery.
+    extra = (rng, fraction): additionally a random fraction of the prefixes of length max_len."""
     idx = 0
-    for ln in range(1, max_len + 1):
+    lengths = [(ln, None) for ln in range(1, max_len + 1)]
+    if extra:
+        lengths.append((max_len + 1, extra))
+    for ln, smp in lengths:
         for prefix in itertools.product(alphabet, repeat=ln - 1):
+            if smp and smp[0].random() >= smp[1]:
+                continue
             runs = []
             for s in alphabet:
                 seq = _number(list(prefix) + [s])
                 runs.append({'kind': kind, 'ops': seq + _battery(ts, kind, idx, full=ln < light_from)})
                 idx += 1
-            cases.append({'runs': runs, 'digits': [], 'tag': f'{tag}/len={ln}'})
+            cases.append({'runs': runs, 'digits': [], 'tag': f'{tag}/len={ln}' + ('(sampled)' if smp else '')})
 
 
 def _ts_pool(rng):
@@ -229,10 +236,17 @@ def gen_cases(rng, tier):
     cases = []
     quick = tier == 'quick'
     # (A) exhaustive, 2 timestamps x 2 devices
-    _exhaustive(_alphabet_a(), T2, 3 if quick else 4, 'traj', cases, 'exhA-traj')
-    _exhaustive(_alphabet_a()[:-1], T2, 2 if quick else 3, 'camera', cases, 'exhA-rec')
+    if quick:
+        _exhaustive(_alphabet_a(), T2, 4, 'traj', cases, 'exhA-traj', light_from=4)
+        _exhaustive(_alphabet_a()[:-1], T2, 3, 'camera', cases, 'exhA-rec')
+    else:
+        _exhaustive(_alphabet_a(), T2, 4, 'traj', cases, 'exhA-traj', light_from=5, extra=(rng, 0.1))
+        _exhaustive(_alphabet_a()[:-1], T2, 4, 'camera', cases, 'exhA-rec')
     # (B) exhaustive, 3 timestamps x 2 devices, pair edits
-    _exhaustive(_alphabet_b(), T3, 2 if quick else 3, 'traj', cases, 'exhB-traj')
+    if quick:
+        _exhaustive(_alphabet_b(), T3, 3, 'traj', cases, 'exhB-traj', light_from=3)
+    else:
+        _exhaustive(_alphabet_b(), T3, 4, 'traj', cases, 'exhB-traj', light_from=4)
     # sampled longer sequences over the same alphabets
     a, b = _alphabet_a(), _alphabet_b()
     for i in range(150 if quick else 3000):
@@ -576,81 +590,95 @@ def oracle(case, obs):
 
 
 # ------------------------------------------------------------------------------------------ Coq encoding
-def _c_pid(pid):
-    return f'(PId {int(pid)})'
+class _Names:
+    """Literals are the expensive part of a shard for Coq's parser: every distinct int / str of a case is
+    bound once by a let and referred to by name."""
+
+    def __init__(self):
+        self.ints, self.strs = {}, {}
+
+    def z(self, n):
+        n = int(n)
+        if n not in self.ints:
+            self.ints[n] = f'z{len(self.ints)}'
+        return self.ints[n]
+
+    def s(self, x):
+        if x not in self.strs:
+            self.strs[x] = f's{len(self.strs)}'
+        return self.strs[x]
+
+    def wrap(self, term):
+        lets = [f'let {name} := {kv.cstr(x)} in' for x, name in self.strs.items()]
+        lets += [f'let {name} := {kv.cz(n)} in' for n, name in self.ints.items()]
+        return '(' + ' '.join(lets) + ' ' + term + ')'
 
 
-def _c_op(op):
+def _c_op(op, nm):
     k = op[0]
-    z, s = kv.cz, kv.cstr
+    z, s = nm.z, nm.s
     if k == 'sp':
-        return f'M (SetPair {z(op[1])} {s(op[2])} {_c_pid(op[3])})'
+        return f'SP {z(op[1])} {s(op[2])} {z(op[3])}'
     if k == 'st':
-        return f'M (SetTs {z(op[1])} {kv.clist(kv.cpair(s(d), _c_pid(p)) for d, p in op[2])})'
+        return f'ST {z(op[1])} {kv.clist(kv.cpair(s(d), z(p)) for d, p in op[2])}'
     if k == 'dp':
-        return f'M (DelPair {z(op[1])} {s(op[2])})'
+        return f'DP {z(op[1])} {s(op[2])}'
     if k == 'dt':
-        return f'M (DelTs {z(op[1])})'
+        return f'DT {z(op[1])}'
     if k == 'ht':
-        return f'M (HasTs {z(op[1])})'
+        return f'HT {z(op[1])}'
     if k == 'hp':
-        return f'M (HasPair {z(op[1])} {s(op[2])})'
+        return f'HP {z(op[1])} {s(op[2])}'
     if k == 'gp':
-        return f'M (GetPair {z(op[1])} {s(op[2])})'
+        return f'GP {z(op[1])} {s(op[2])}'
     if k == 'gt':
-        return f'M (GetTs {z(op[1])})'
-    if k == 'pairs':
-        return 'M Pairs'
-    if k == 'len':
-        return 'M Len'
-    if k == 'bad':
-        return 'M Bad'
-    if k == 'sorted':
-        return 'Sorted'
-    if k == 'tslen':
-        return 'TsLen'
+        return f'GT {z(op[1])}'
+    if k in _C_NULLARY:
+        return _C_NULLARY[k]
     if k == 'ip':
-        return f'Interp {z(op[1])} {s(op[2])} {z(op[3])}'
+        return f'IP {z(op[1])} {s(op[2])} {z(op[3])}'
     raise ValueError(k)
 
 
-_ERR = {'KeyError': 'OKeyErr', 'TypeError': 'OTypeErr', 'IndexError': 'OIndexErr'}
+_C_NULLARY = {'pairs': 'PR', 'len': 'LN', 'bad': 'BD', 'sorted': 'SO', 'tslen': 'TL'}
+_ERR = {'KeyError': 'EK', 'TypeError': 'ET', 'IndexError': 'EI'}
 
 
-def _c_out(o):
+def _c_out(o, nm):
     k = o[0]
-    z, s = kv.cz, kv.cstr
+    z, s = nm.z, nm.s
     if k == 'none':
-        return 'ONone'
+        return 'ON'
     if k == 'bool':
-        return f'OBool {kv.cbool(o[1])}'
+        return f'OB {kv.cbool(o[1])}'
     if k == 'val':
-        return f'OVal {_c_pid(o[1])}'
+        return f'OV {z(o[1])}'
     if k == 'mix':
-        return f'OVal (PMix {z(o[1])} {z(o[2])} {z(o[3])} {z(o[4])} {z(o[5])})'
+        return f'OM {z(o[1])} {z(o[2])} {z(o[3])} {z(o[4])} {z(o[5])}'
     if k == 'dict':
-        return f'ODict {kv.clist(kv.cpair(s(d), _c_pid(p)) for d, p in o[1])}'
+        return f'OD {kv.clist(kv.cpair(s(d), z(p)) for d, p in o[1])}'
     if k == 'pairs':
-        return f'OPairs {kv.clist(kv.cpair(z(t), s(d), _c_pid(p)) for t, d, p in o[1])}'
+        return f'OP {kv.clist(kv.cpair(z(t), s(d), z(p)) for t, d, p in o[1])}'
     if k == 'int':
-        return f'OInt {z(o[1])}'
+        return f'OI {z(o[1])}'
     if k == 'list':
-        return f'OList {kv.clist(z(x) for x in o[1])}'
+        return f'OL {kv.clist(z(x) for x in o[1])}'
     if k == 'err':
-        return _ERR.get(o[1], 'OOtherErr')
-    return 'OOtherErr'          # unknown value / an ill-typed call that returned
+        return _ERR.get(o[1], 'EO')
+    return 'EO'          # unknown value / an ill-typed call that returned
 
 
 def encode(case, obs):
+    nm = _Names()
     runs = []
     for run, robs in zip(case['runs'], obs['runs']):
         runs.append('{| r_kind := %s; r_ops := %s; r_outs := %s |}' % (
             'KTraj' if run['kind'] == 'traj' else 'KRec',
-            kv.clist(_c_op(op) for op in run['ops']), kv.clist(_c_out(o) for o in robs['outs'])))
-    digits = [kv.cpair(kv.cz(n), kv.cz(k if isinstance(k, int) else -1))
+            kv.clist(_c_op(op, nm) for op in run['ops']), kv.clist(_c_out(o, nm) for o in robs['outs'])))
+    digits = [kv.cpair(kv.cz(n), nm.z(k if isinstance(k, int) else -1))
               for n, k in zip(case.get('digits', []), obs['digits'])]
-    return '{| c_maxsize := %s; c_runs := %s; c_digits := %s |}' % (
-        kv.cz(obs['maxsize']), kv.clist(runs), kv.clist(digits))
+    return nm.wrap('{| c_maxsize := %s; c_runs := %s; c_digits := %s |}' % (
+        kv.cz(obs['maxsize']), kv.clist(runs), kv.clist(digits)))
 
 
 # ------------------------------------------------------------------------------------------ evidence helpers
